@@ -353,3 +353,78 @@ func (c *Canon) RenderResult(r ProbeResult) string {
 	}
 	return c.Render(r.V)
 }
+
+// StubPkg is one --stub output to be compiled with -tags gontainerstub against the types-only universe.
+type StubPkg struct {
+	Name       string
+	Source     string
+	Clause     string
+	Type       string   // container type
+	Ctor       string   // constructor
+	Getters    []string // methods without arguments
+	CtxGetters []string // methods taking a context
+	Local      bool
+}
+
+// RunStubProbe compiles the stubs with the tag against the types-only twin, calls the constructor and
+// every listed method, and returns name -> recovered panic value ("<no panic>" when it returned).
+func (w *W) RunStubProbe(pkgs []StubPkg) (map[string]string, error) {
+	d := filepath.Join(w.Dir, "stubprobe")
+	os.RemoveAll(d)
+	os.MkdirAll(d, 0o755)
+	ver, err := HelpersVersion(w.Env.Repo)
+	if err != nil {
+		return nil, err
+	}
+	gomod := fmt.Sprintf("module stubprobe\n\ngo 1.21\n\nrequire %s %s\nrequire fx v0.0.0\nreplace fx => %s\n", HelpersPath, ver, filepath.Join(w.Shared, "fxt"))
+	os.WriteFile(filepath.Join(d, "go.mod"), []byte(gomod), 0o644)
+	copyFile(filepath.Join(w.Env.Repo, "go.sum"), filepath.Join(d, "go.sum"))
+	var imports, body strings.Builder
+	for _, g := range pkgs {
+		gd := filepath.Join(d, g.Name)
+		os.MkdirAll(gd, 0o755)
+		os.WriteFile(filepath.Join(gd, "stub.go"), []byte(g.Source), 0o644)
+		if g.Local {
+			os.WriteFile(filepath.Join(gd, "fixture_local.go"), []byte("//go:build gontainerstub\n\n"+LocalFixtureTypesOnly(g.Clause)), 0o644)
+		}
+		fmt.Fprintf(&imports, "\t%s \"stubprobe/%s\"\n", g.Name, g.Name)
+		fmt.Fprintf(&body, "\ttry(%q, func() { %s.%s() })\n", g.Name+".ctor", g.Name, g.Ctor)
+		for _, m := range g.Getters {
+			fmt.Fprintf(&body, "\ttry(%q, func() { var c *%s.%s; c.%s() })\n", g.Name+"."+m, g.Name, g.Type, m)
+		}
+		for _, m := range g.CtxGetters {
+			fmt.Fprintf(&body, "\ttry(%q, func() { var c *%s.%s; c.%s(context.Background()) })\n", g.Name+"."+m, g.Name, g.Type, m)
+		}
+	}
+	main := "//go:build gontainerstub\n\npackage main\n\nimport (\n\t\"context\"\n\t\"fmt\"\n" + imports.String() + ")\n\nvar _ = context.Background\n\nfunc try(name string, f func()) {\n\tdefer func() {\n\t\tr := recover()\n\t\tif r == nil {\n\t\t\tfmt.Printf(\"%s\\t<no panic>\\n\", name)\n\t\t\treturn\n\t\t}\n\t\tfmt.Printf(\"%s\\t%v\\n\", name, r)\n\t}()\n\tf()\n}\n\nfunc main() {\n" + body.String() + "}\n"
+	os.WriteFile(filepath.Join(d, "main.go"), []byte(main), 0o644)
+	bin := filepath.Join(w.Dir, "stubprobe.bin")
+	cmd := exec.Command("go", "build", "-tags", "gontainerstub", "-o", bin, ".")
+	cmd.Dir = d
+	cmd.Env = append(os.Environ(), "GOMAXPROCS=4")
+	if out, err := cmd.CombinedOutput(); err != nil {
+		return nil, &ProbeError{"build", string(out)}
+	}
+	out, err := exec.Command(bin).CombinedOutput()
+	if err != nil {
+		return nil, &ProbeError{"run", string(out)}
+	}
+	res := map[string]string{}
+	for _, l := range strings.Split(string(out), "\n") {
+		if i := strings.Index(l, "\t"); i > 0 {
+			res[l[:i]] = l[i+1:]
+		}
+	}
+	// without the tag every stub package must be excluded from the build
+	if len(pkgs) > 0 {
+		c2 := exec.Command("go", "build", "./"+pkgs[0].Name)
+		c2.Dir = d
+		o2, err2 := c2.CombinedOutput()
+		if err2 == nil || !strings.Contains(string(o2), "build constraints exclude all Go files") {
+			res["<untagged>"] = "stub package builds without the tag: " + string(o2)
+		} else {
+			res["<untagged>"] = "excluded"
+		}
+	}
+	return res, nil
+}
